@@ -83,12 +83,72 @@ fn guard<T>(f: impl FnOnce() -> T) -> Result<T, String> {
   catch_unwind(AssertUnwindSafe(f)).map_err(|_| last_panic())
 }
 
+// ---------------------------------------------------------------------------------------
+// Watchdog: every call into the crate under test registers what it is doing; a background
+// thread ends the run (exit 2 = inconclusive) when one call does not return in time and
+// saves the inputs of the stuck call, so that a hang is never silent and never a violation
+// by timing alone.
+// ---------------------------------------------------------------------------------------
+
+struct Slot {
+  since: std::time::Instant,
+  what: String,
+}
+
+static SLOTS: std::sync::Mutex<Vec<Option<Slot>>> = std::sync::Mutex::new(Vec::new());
+
+thread_local! {
+  static MY_SLOT: std::cell::Cell<usize> = std::cell::Cell::new(usize::MAX);
+}
+
+pub struct InCall(usize);
+
+impl Drop for InCall {
+  fn drop(&mut self) {
+    if let Ok(mut s) = SLOTS.lock() {
+      if let Some(x) = s.get_mut(self.0) {
+        *x = None;
+      }
+    }
+  }
+}
+
+/// Register the start of a call into the crate under test.
+pub fn in_call(what: impl FnOnce() -> String) -> InCall {
+  let idx = MY_SLOT.with(|c| {
+    if c.get() == usize::MAX {
+      let mut s = SLOTS.lock().unwrap();
+      s.push(None);
+      c.set(s.len() - 1);
+    }
+    c.get()
+  });
+  let mut s = SLOTS.lock().unwrap();
+  s[idx] = Some(Slot { since: std::time::Instant::now(), what: what() });
+  InCall(idx)
+}
+
+/// Start the watchdog thread. `on_hang` receives the description of the stuck call.
+pub fn start_watchdog(limit_s: u64, on_hang: impl Fn(String) + Send + 'static) {
+  std::thread::spawn(move || loop {
+    std::thread::sleep(std::time::Duration::from_millis(500));
+    let stuck = {
+      let s = SLOTS.lock().unwrap();
+      s.iter().flatten().find(|x| x.since.elapsed().as_secs() >= limit_s).map(|x| x.what.clone())
+    };
+    if let Some(w) = stuck {
+      on_hang(w);
+    }
+  });
+}
+
 pub fn validate_json(schema: &str, json: &str) -> V {
   validate_json_feat(schema, json, None)
 }
 
 pub fn validate_json_feat(schema: &str, json: &str, feats: Option<&[&str]>) -> V {
   use cddl::validator::json::Error as E;
+  let _w = in_call(|| serde_json::json!({"call": "validate_json_from_str", "schema": schema, "json": json}).to_string());
   match guard(|| cddl::validate_json_from_str(schema, json, feats)) {
     Err(p) => V::Panic(p),
     Ok(Ok(())) => V::Ok,
@@ -107,6 +167,7 @@ pub fn validate_cbor(schema: &str, bytes: &[u8]) -> V {
 
 pub fn validate_cbor_feat(schema: &str, bytes: &[u8], feats: Option<&[&str]>) -> V {
   use cddl::validator::cbor::Error as E;
+  let _w = in_call(|| serde_json::json!({"call": "validate_cbor_from_slice", "schema": schema, "cbor": crate::cbor::hex(bytes)}).to_string());
   match guard(|| cddl::validate_cbor_from_slice(schema, bytes, feats)) {
     Err(p) => V::Panic(p),
     Ok(Ok(())) => V::Ok,
@@ -122,6 +183,7 @@ pub fn validate_cbor_feat(schema: &str, bytes: &[u8], feats: Option<&[&str]>) ->
 pub fn validate_csv(schema: &str, csv: &str, header: Option<bool>) -> V {
   use cddl::validator::csv_validator::Error as E;
   use cddl::validator::json::Error as JE;
+  let _w = in_call(|| serde_json::json!({"call": "validate_csv_from_str", "schema": schema, "csv": csv}).to_string());
   match guard(|| cddl::validate_csv_from_str(schema, csv, header, None)) {
     Err(p) => V::Panic(p),
     Ok(Ok(())) => V::Ok,
@@ -142,6 +204,7 @@ pub fn with_parsed<T>(
   text: &str,
   f: impl FnOnce(&cddl::ast::CDDL) -> T,
 ) -> Result<T, Result<String, String>> {
+  let _w = in_call(|| serde_json::json!({"call": "cddl_from_str (+ closure)", "text": text}).to_string());
   match guard(|| cddl::cddl_from_str(text, false).map(|c| f(&c))) {
     Err(p) => Err(Err(p)),
     Ok(Ok(t)) => Ok(t),
